@@ -113,6 +113,7 @@ class CorpusSummary(object):
         log.info('reading data at %s level', level)
 
         self.separator = separator
+        self.level = level
         self.summary = Counter()
         self.lexicon = Counter()
         self.phrase_initial = Counter()
@@ -310,8 +311,11 @@ class LexicalSegmenter(AbstractSegmenter):
         word_initial = Counter()
         word_final = Counter()
         for word in self.summary.lexicon:
-            word_initial.increment((word[0],))
-            word_final.increment((word[-1],))
+            # first and last units (not characters) of the word
+            units = self.summary.separator.tokenize(
+                word, self.summary.level, keep_boundaries=False)
+            word_initial.increment((units[0],))
+            word_final.increment((units[-1],))
 
         px2_ = self._norm2pdf(word_final)
         p_2y = self._norm2pdf(word_initial)
